@@ -791,6 +791,14 @@ func Setup(mainpkg *ssa.Package, mode Mode, sizes types.Sizes) *Machine {
 		m.presets[g] = iface{types.NewPointer(est), &cell}
 		delete(needsInit, g)
 	}
+	// globals that are only ever handed to an intercept (their value is never inspected)
+	for _, pn := range [][2]string{{"encoding/base64", "RawURLEncoding"}, {"encoding/base64", "StdEncoding"}, {"encoding/base64", "URLEncoding"}, {"encoding/base64", "RawStdEncoding"}} {
+		if p := i.prog.ImportedPackage(pn[0]); p != nil {
+			if g := p.Var(pn[1]); g != nil {
+				delete(needsInit, g)
+			}
+		}
+	}
 	for _, n := range []string{"EOF", "ErrUnexpectedEOF", "ErrShortWrite", "ErrNoProgress", "ErrShortBuffer"} {
 		preset("io", n)
 	}
